@@ -158,15 +158,26 @@ SRC = {
  "stopped": "channel.receive()",
  "dead": "channel.receive()",
  "failed-id": None,
+ "failed-bootstrap": None,
 }
 g = execnet.Group()
 gw = g.makegateway("popen//id=a//execmodel=%s" % model)
 pid = gw.remote_exec("import os; channel.send(os.getpid())").receive()
 pids = [pid]
-if state == "failed-id":
+if state in ("failed-id", "failed-bootstrap"):
     before = set(os.listdir("/proc"))
+    badspec = "popen//id=a"
+    if state == "failed-bootstrap":
+        # a child that is not a Python interpreter: it ignores its arguments and echoes the bootstrap
+        # line back, so the handshake fails after the process exists
+        import tempfile
+        fake = os.path.join(tempfile.mkdtemp(), "notpython")
+        with open(fake, "w") as f:
+            f.write("#!/bin/sh\nexec cat\n")
+        os.chmod(fake, 0o755)
+        badspec = "popen//python=%s" % fake
     try:
-        g.makegateway("popen//id=a")
+        g.makegateway(badspec)
         failed = False
     except Exception as e:
         failed = True
@@ -182,6 +193,10 @@ if state == "failed-id":
             except OSError:
                 pass
     print(json.dumps({"failed": failed, "extra_children": [k for k in kids if k != pid]}))
+    for k in kids:
+        if k != pid:
+            try: os.kill(k, signal.SIGKILL)
+            except OSError: pass
     g.terminate(1)
     sys.exit(0)
 def alive(p):
@@ -318,14 +333,21 @@ def run(tier: str, only=None) -> int:
         ("explicit-live", {"pre": ["popen//id=p"], "makers": [["popen//id=p"], ["popen"]]}),
         ("explicit-next-auto", {"makers": [["popen//id=gw0"], ["popen"]]}),
         ("same-explicit-twice", {"makers": [["popen//id=same"], ["popen//id=same"]]}),
+        # environment fault: a thread this process needs for the new gateway cannot be started
+        ("thread-start-fails", {"makers": [["popen", "popen"]], "start_faults": True, "env": 1}),
+        ("thread-start-fails-2", {"pre": ["popen//id=p"], "makers": [["popen"], ["popen//id=q"]], "start_faults": True, "env": 1}),
     ):
         if only and "fail" not in only:
+            continue
+        if FP.get("env"):
+            harness.run_exploration(rep, PID, f"fail/{fname}/sync", FailScn, FP, {"ps": 0, "env": 1, "free": 1} if tier == "quick" else {"ps": 1, "env": 1, "free": 1}, max_execs=cap)
             continue
         harness.run_exploration(rep, PID, f"fail/{fname}/sync", FailScn, FP, {"ps": 1, "free": 1} if tier == "quick" else {"ps": 2, "free": 1}, max_execs=cap)
         harness.run_exploration(rep, PID, f"fail/{fname}/stmt", FailScn, FP, {"ps": 0, "pl": 2, "free": 0}, stmt=stmt, max_execs=cap)
     # real cells
     if not only or "real" in only:
         cells = [(m, s, 0.5) for m in ("thread", "main_thread_only") for s in list(STATES) + ["failed-id"]]
+        cells.append(("thread", "failed-bootstrap", 0.5))
         cells.append(("thread", "atexit", 1.0))
         if tier == "thorough":
             cells += [(m, s, 2.0) for m in ("thread", "main_thread_only") for s in STATES]
@@ -340,9 +362,9 @@ def run(tier: str, only=None) -> int:
                     d = None
                     bad = f"cell produced {out!r}"
                 if d is not None:
-                    if state == "failed-id":
+                    if state in ("failed-id", "failed-bootstrap"):
                         if not d["failed"] or d["extra_children"]:
-                            bad = f"makegateway with a taken id: failed={d['failed']}, extra live children={d['extra_children']}"
+                            bad = f"makegateway that must fail ({state}): failed={d['failed']}, extra live children={d['extra_children']}"
                     elif d["elapsed"] > 4 * timeout + 5 or d["len"] != 0 or d["alive"]:
                         bad = f"terminate({timeout}) took {d['elapsed']} s, len(group)={d['len']}, live child pids={d['alive']}" + (f" (the initiator ended without calling terminate: execnet's atexit hook did; its stderr ends with: {d.get('stderr')})" if state == "atexit" else "")
                 if bad:
